@@ -842,6 +842,24 @@ impl<const TIME_ZONE_MAX: usize, const DST_OFFSET_MAX: usize>
         Ok(())
     }
 
+    /// Clear both lists and erase them from `store`. Called on factory reset
+    /// via the `LifecycleOp::FactoryReset` lifecycle operation, so that a
+    /// factory reset does not leave the persisted lists behind.
+    pub fn reset_persist<S: KvBlobStore>(&self, mut store: S, buf: &mut [u8]) -> Result<(), Error> {
+        self.state.lock(|state| {
+            let mut state = state.borrow_mut();
+
+            state.data = TimeZoneStoreData::new();
+            state.generation = state.generation.wrapping_add(1);
+        });
+
+        store.remove(TIME_ZONE_KEY, buf)?;
+
+        self.note_changed();
+
+        Ok(())
+    }
+
     /// Serialise both lists to `kv` under [`TIME_ZONE_KEY`]. Called by the
     /// handler after every accepted mutation (the lists are `nonVolatile`
     /// quality per the Matter Core spec).
@@ -1449,6 +1467,15 @@ impl ClusterHandler for TimeSyncHandler<'_> {
 
     fn dataver_changed(&self) {
         self.dataver.changed();
+    }
+
+    fn lifecycle(&self, ctx: impl HandlerContext, op: crate::dm::LifecycleOp) -> Result<(), Error> {
+        match (self.tz_store, op) {
+            (Some(tz_store), crate::dm::LifecycleOp::FactoryReset) => ctx
+                .kv()
+                .access(|store, buf| tz_store.reset_persist(store, buf)),
+            _ => Ok(()),
+        }
     }
 
     // ---- Always-on reads (served from Matter-wide LKG state, not
